@@ -246,7 +246,7 @@ func (e *Engine) bind() error {
 			}
 			bc := &BoundContract{FC: fc, Pkg: pkg, Decl: fd, Locals: map[*types.Var]string{}, Inv: map[int][]ClauseExpr{},
 				Dec: map[int]ClauseExpr{}, LoopMod: map[int][]ast.Expr{}, LoopSplit: map[int][]ast.Expr{}, Unroll: map[int]int{}, HasLoop: map[int]bool{},
-				FreshResult: map[int]bool{}, Known: map[string]string{}, UseLemma: map[int][]*ast.FuncLit{}, LoopExit: map[int][]ClauseExpr{}}
+				FreshResult: map[int]bool{}, FreshOrNil: map[int]bool{}, Known: map[string]string{}, UseLemma: map[int][]*ast.FuncLit{}, LoopExit: map[int][]ClauseExpr{}}
 			obj := pkg.TypesInfo.Defs[fd.Name].(*types.Func)
 			bc.Sig = obj.Type().(*types.Signature)
 			if fc.Spec {
@@ -453,7 +453,7 @@ func (e *Engine) bindClauses(bc *BoundContract) error {
 	for i := range fc.Clauses {
 		cl := &fc.Clauses[i]
 		switch cl.Kind {
-		case "requires", "ensures", "invariant", "decreases", "modifies", "fresh", "assert", "assume", "split", "appends", "appendsAll", "copies", "mapStore", "mapDelete", "uselemma", "exit":
+		case "requires", "ensures", "invariant", "decreases", "modifies", "fresh", "freshornil", "assert", "assume", "split", "appends", "appendsAll", "copies", "mapStore", "mapDelete", "uselemma", "exit":
 			if ci >= len(calls) {
 				return fmt.Errorf("%s:%d: clause/statement mismatch", fc.File, cl.Line)
 			}
@@ -518,12 +518,15 @@ func (e *Engine) bindClauses(bc *BoundContract) error {
 					}
 					bc.Modifies = append(bc.Modifies, call.Args...)
 				}
-			case "fresh":
+			case "fresh", "freshornil":
 				for _, a := range call.Args {
 					if id, ok := a.(*ast.Ident); ok {
 						for ri, r := range bc.Results {
 							if info.Uses[id] == r {
 								bc.FreshResult[ri] = true
+								if cl.Kind == "freshornil" {
+									bc.FreshOrNil[ri] = true
+								}
 							}
 						}
 					}
@@ -761,7 +764,7 @@ func (e *Engine) VerifyFunc(bc *BoundContract) (rep *FuncReport) {
 				}
 				g := c.False
 				if a != nil {
-					g = freshTerm(c, a)
+					g = freshTerm(c, a, bc.FreshOrNil[ri])
 				}
 				u.addObl(&Obligation{Kind: "ensures", Name: "fresh " + bc.Results[ri].Name(), PC: out.pc, Goal: g, Pos: e.Fset.Position(fn.Pos())})
 			}
@@ -974,9 +977,12 @@ func ssautilAll(prog *ssa.Program) []*ssa.Function {
 }
 
 // freshTerm: the address denotes (a cell of) an object allocated during the call; nil counts as not fresh.
-func freshTerm(c *Ctx, t *Term) *Term {
+func freshTerm(c *Ctx, t *Term, nilOK bool) *Term {
 	if t.Op == OpIte {
-		return c.Ite(t.Args[0], freshTerm(c, t.Args[1]), freshTerm(c, t.Args[2]))
+		return c.Ite(t.Args[0], freshTerm(c, t.Args[1], nilOK), freshTerm(c, t.Args[2], nilOK))
+	}
+	if nilOK && t.Op == OpNil {
+		return c.True
 	}
 	if r, k := addrRoot(t); k == 1 && r.K > 0 {
 		return c.True
